@@ -1,13 +1,238 @@
-import SSVerif.Model.TextFsg
-import SSVerif.Model.TextDict
-import SSVerif.Model.TextJson
-/-! # C10 — placeholder, theorems follow -/
+import SSVerif.Proofs.TextIn
+import SSVerif.Proofs.TextFsg
+import SSVerif.Proofs.TextDict
+import SSVerif.Proofs.TextJson
+/-!
+# C10 — Untrusted grammar, dictionary, configuration and text inputs are handled safely
+
+Property theorems only.  The models (`Model/TextIn`, `TextFsg`, `TextDict`, `TextJson`) are total
+Lean functions over **arbitrary byte arrays** that mirror the C scanners; every read of the input
+buffer in them is `buf[i]'h` with `h : i < buf.size`, so that they type-check is already the
+statement "the model reads only inside `[buf, end)`".  The theorems below say, for *every* byte
+string:
+
+* `*_total`   — each parser returns an object or an error (and, behind it, that Lean accepted the
+  definitions: the loops terminate because each `nextLine`/`nextWord`/token step strictly advances);
+* `*_in_bounds` — what the tokenisers hand out lies inside the buffer / the line / the JSON text,
+  and is exactly the run of bytes the C code delimits;
+* `*_wf`      — an accepted object satisfies the well-formedness the other models assume.
+
+**Partial** (labelled in MANIFEST): that the *C code* performs no out-of-bounds access, leak, exit
+or unbounded loop is observed under ASan/UBSan/LSan by the correspondence harness, not proved;
+the JSGF front end (`jsgf_scanner.c`, `jsgf_parser.c`, generated code) is not modelled at all — for
+arbitrary bytes only termination and memory safety of the C side are observed.
+-/
 namespace SSVerif.TextIn
 
-/-- every FSG byte string is accepted with an object or refused with an error kind -/
-theorem C10_fsgRead_total (buf : Buf) : (∃ o, fsgRead buf = .ok o) ∨ (∃ e, fsgRead buf = .error e) := by
-  cases h : fsgRead buf with
-  | ok o => exact .inl ⟨o, rfl⟩
-  | error e => exact .inr ⟨e, rfl⟩
+/-! ## totality -/
+
+/-- **C10, totality.** On every byte string each modelled parser returns an object or an error
+kind (`fsg_model_read_s3file`, `dict_init_s3file`, `config_parse_json`, `decoder_set_align_text`,
+`decoder_add_word`, `cmn_set_repr`). -/
+theorem C10_parsers_total (phones : List (List UInt8)) (sil veclen : Nat) (defs : List CfgDef) (d : Dict)
+    (b b2 : List UInt8) :
+    ((∃ f, fsgRead b.toArray = .ok f) ∨ ∃ e, fsgRead b.toArray = .error e) ∧
+    ((∃ x, dictInit phones sil (some b.toArray) (some b2.toArray) = .ok x) ∨
+      ∃ e, dictInit phones sil (some b.toArray) (some b2.toArray) = .error e) ∧
+    ((∃ c, configParseJson defs b = .ok c) ∨ ∃ e, configParseJson defs b = .error e) ∧
+    ((∃ ws, alignWords d b = .ok ws) ∨ ∃ w, alignWords d b = .error w) ∧
+    ((∃ r, addWord phones d b b2 = .ok r) ∨ ∃ e, addWord phones d b b2 = .error e) ∧
+    ((∃ ms, cmnSet veclen b = some ms) ∨ cmnSet veclen b = none) := by
+  refine ⟨?_, ?_, ?_, ?_, ?_, ?_⟩
+  · cases h : fsgRead b.toArray with
+    | ok o => exact .inl ⟨o, rfl⟩
+    | error e => exact .inr ⟨e, rfl⟩
+  · cases h : dictInit phones sil (some b.toArray) (some b2.toArray) with
+    | ok o => exact .inl ⟨o, rfl⟩
+    | error e => exact .inr ⟨e, rfl⟩
+  · cases h : configParseJson defs b with
+    | ok o => exact .inl ⟨o, rfl⟩
+    | error e => exact .inr ⟨e, rfl⟩
+  · cases h : alignWords d b with
+    | ok o => exact .inl ⟨o, rfl⟩
+    | error e => exact .inr ⟨e, rfl⟩
+  · cases h : addWord phones d b b2 with
+    | ok o => exact .inl ⟨o, rfl⟩
+    | error e => exact .inr ⟨e, rfl⟩
+  · cases h : cmnSet veclen b with
+    | some o => exact .inl ⟨o, rfl⟩
+    | none => exact .inr rfl
+
+/-- **C10, progress.** The line loop runs at most once per remaining byte: `s3file_nextline`
+strictly advances `s->ptr` and never beyond `end`. -/
+theorem C10_line_loop_bounded (buf : Buf) (ptr : Nat) :
+    (allLines buf ptr).length ≤ buf.size - ptr ∧
+    ∀ l, nextLine buf ptr = some l → l.lo = ptr ∧ ptr < l.hi ∧ l.hi ≤ buf.size :=
+  ⟨allLines_length buf ptr, fun l h => ⟨nextLine_lo buf ptr l h, by have := nextLine_lo buf ptr l h; have := l.lt; omega, l.le⟩⟩
+
+/-! ## in-bounds -/
+
+/-- **C10, `s3file_nextline` in bounds.** The line returned starts at `ptr`, contains no `'\n'`
+except as its last byte, and ends at the end of the buffer or just after a `'\n'`; at the end of
+the buffer there is no line. -/
+theorem C10_nextLine_in_bounds (buf : Buf) (ptr : Nat) :
+    (nextLine buf ptr = none ↔ buf.size ≤ ptr) ∧
+    ∀ l, nextLine buf ptr = some l →
+      l.lo = ptr ∧ l.hi ≤ buf.size ∧
+      (∀ i (hi : i < buf.size), l.lo ≤ i → i + 1 < l.hi → buf[i]'hi ≠ 10) ∧
+      (l.hi = buf.size ∨ ∃ (hh : l.hi - 1 < buf.size), buf[l.hi - 1]'hh = 10) :=
+  ⟨nextLine_none buf ptr, fun l h =>
+    let s := nextLine_spec buf ptr l h
+    ⟨s.1, l.le, s.2.1, s.2.2⟩⟩
+
+/-- **C10, the lines tile the buffer.** Reading line after line from `ptr` visits every byte of
+`[ptr, end)` exactly once: each line starts where the previous one ended. -/
+theorem C10_lines_tile_buffer (buf : Buf) (ptr : Nat) : Tiles ptr (allLines buf ptr) :=
+  allLines_tiles buf ptr
+
+/-- **C10, `s3file_nextword` in bounds.** With the line bound `e ≤ end`, the word returned lies
+inside `[p, e)`, is preceded only by white space, consists of non-space bytes, and is followed by
+white space or by the bound; `none` means everything up to the bound is white space. -/
+theorem C10_nextWord_in_bounds (buf : Buf) (p e : Nat) (he : e ≤ buf.size) :
+    (∀ w, nextWord buf p e he = some w →
+      p ≤ w.lo ∧ w.hi ≤ e ∧
+      (∀ i (hi : i < buf.size), p ≤ i → i < w.lo → isSpaceC (buf[i]'hi) = true) ∧
+      (∀ i (hi : i < buf.size), w.lo ≤ i → i < w.hi → isSpaceC (buf[i]'hi) = false) ∧
+      (w.hi = e ∨ ∃ (hh : w.hi < buf.size), isSpaceC (buf[w.hi]'hh) = true)) ∧
+    (nextWord buf p e he = none → ∀ i (hi : i < buf.size), p ≤ i → i < e → isSpaceC (buf[i]'hi) = true) :=
+  ⟨fun w h => nextWord_spec buf p e he w h, nextWord_none buf p e he⟩
+
+/-- **C10, words stay inside their line** (`end = s->ptr`), and a copied word is exactly the bytes
+of its span: as long as the span and without white space (NUL counts as white space). -/
+theorem C10_words_in_line (buf : Buf) (l : Span buf.size) :
+    ∀ w ∈ lineWords buf l, l.lo ≤ w.lo ∧ w.hi ≤ l.hi ∧
+      slice buf w = (buf.extract w.lo w.hi).toList ∧ (slice buf w).length = w.hi - w.lo ∧
+      ∀ b ∈ slice buf w, isSpaceC b = false :=
+  fun w hw => ⟨(lineWords_within buf l w hw).1, (lineWords_within buf l w hw).2, slice_eq buf w, slice_length buf w,
+    wordsFrom_nonspace buf l.lo l.hi l.le w hw⟩
+
+/-- **C10, JSON tokens in bounds.** When `jsmn_parse` accepts a text, there is at least one token,
+every token is closed, and `0 ≤ start ≤ end ≤ strlen(json)`: the `memcpy`/`unescape` of
+`config_parse_json` (`json + start`, length `end - start`) stays inside the string. -/
+theorem C10_json_tokens_in_bounds (js : Buf) (toks : Array Tok) (h : jsmnParse js = .ok toks) :
+    0 < toks.size ∧
+    ∀ i (hi : i < toks.size), ∃ e, (toks[i]'hi).stop = some e ∧ (toks[i]'hi).start ≤ e ∧ e ≤ js.size :=
+  jsmnParse_tokens_in_text js toks h
+
+/-- **C10, integer conversions.** `strtol`/`sscanf("%ld")` results are inside the range of `long`
+and the `(int)` truncation inside the range of `int32` — for every token, however long. -/
+theorem C10_int_conversions_in_range (s : List UInt8) (v : Int) (h : strtol10 s = some v) :
+    longMin ≤ v ∧ v ≤ longMax ∧ -2147483648 ≤ wrap32 v ∧ wrap32 v ≤ 2147483647 :=
+  ⟨(strtol10_range s v h).1, (strtol10_range s v h).2, (wrap32_range v).1, (wrap32_range v).2⟩
+
+/-! ## well-formedness of accepted objects -/
+
+/-- **C10, FSG well-formedness.** Whatever bytes `fsg_model_read_s3file` accepts: the state count
+fits `int32`, start and final state are states, every transition connects states, carries a word id
+of the vocabulary and a probability whose `float32` value is in `(0, 1]` (`ProbOk`: NaN, ∞, zero
+and negative values are refused); null transitions are not self-loops; vocabulary entries are
+distinct, non-empty and free of white space and NUL. -/
+theorem C10_fsg_wf (buf : Buf) (f : FsgObj) (h : fsgRead buf = .ok f) : FsgWF f :=
+  fsgRead_wf buf f h
+
+/-- **C10, the probability test is exact.** `probAccept` (the model of
+`p = (float32)atof(word); !(p > 0 && p <= 1)` with its magnitude short cuts for astronomically
+long exponents) accepts *exactly* the positive finite literals `m·B^e` with
+`2^-150 + 2^-203 < m·B^e ≤ 1 + 2^-24 + 2^-53` — the reals whose `double`-then-`float32` rounding
+lies in `(0, 1]`; NaN, ±∞, zero and negative literals are refused. -/
+theorem C10_prob_test_exact (p : FloatLit) :
+    probAccept p = true ↔ ∃ m ten e, p = .fin false m ten e ∧ 0 < m ∧ probInRange m ten e := by
+  constructor
+  · intro h
+    obtain ⟨m, ten, e, rfl, hr⟩ := probAccept_sound p h
+    refine ⟨m, ten, e, rfl, ?_, hr⟩
+    rcases Nat.eq_zero_or_pos m with h0 | h0
+    · subst h0; simp [probAccept] at h
+    · exact h0
+  · rintro ⟨m, ten, e, rfl, _, hr⟩
+    exact probAccept_complete m ten e hr
+
+/-- **C10, dictionary well-formedness.** Whatever bytes `dict_init_s3file` accepts (main and
+filler dictionary), given that the silence phone is a phone of the model: every pronunciation is
+non-empty with phone ids `< n_ci`; base and alternative ids are word ids; no word is empty or
+occurs twice; the filler range starts inside the dictionary and `<sil>` is present. -/
+theorem C10_dict_wf (phones : List (List UInt8)) (sil : Nat) (hs : sil < phones.length)
+    (main fdict : Option Buf) (d : Dict) (h : dictInit phones sil main fdict = .ok d) :
+    DictWF phones.length d :=
+  dictInit_wf phones sil hs main fdict d h
+
+/-- **C10, `decoder_add_word`.** An accepted `(word, phones)` pair extends a well-formed
+dictionary to a well-formed dictionary by one entry with the next word id, the given word and a
+non-empty pronunciation of phone ids `< n_ci`. -/
+theorem C10_addWord_wf (phones : List (List UInt8)) (d d' : Dict) (word ps : List UInt8) (wid : Nat)
+    (hI : DictInv phones.length d) (h : addWord phones d word ps = .ok (d', wid)) :
+    DictInv phones.length d' ∧ wid = d.size ∧ d'.size = d.size + 1 ∧
+    ∃ e, d'.words[wid]? = some e ∧ e.word = word ∧ e.pron ≠ [] ∧ ∀ p ∈ e.pron, p < phones.length :=
+  addWord_wf phones d d' word ps wid hI h
+
+/-- **C10, alignment text.** An accepted text is a sequence of non-empty dictionary words that
+contain no delimiter: the linear grammar built from it has `ws.length + 1` states and one word
+arc per word. -/
+theorem C10_align_wf (d : Dict) (text : List UInt8) (ws : List (List UInt8)) (h : alignWords d text = .ok ws) :
+    ∀ w ∈ ws, w ≠ [] ∧ (∀ b ∈ w, isAlignDelim b = false) ∧ (d.wordId w).isSome = true :=
+  alignWords_wf d text ws h
+
+/-- **C10, typed configuration.** An accepted JSON / key-value string yields a configuration with
+exactly the declared parameters in the declared order, every value of its declared type and every
+integer inside the range of `long`. -/
+theorem C10_config_wf (defs : List CfgDef) (json : List UInt8) (c : Config)
+    (h : configParseJson defs json = .ok c) :
+    (∀ x ∈ c, TypeOk x.1.ty x.2) ∧ c.map (·.1.name) = (configInit defs).map (·.1.name) :=
+  configParseJson_wf defs json c h
+
+/-! ## non-vacuity: concrete inputs through the byte-level models -/
+
+/-- the error of a refused input -/
+def errOf {ε α : Type} : Except ε α → Option ε
+  | .error e => some e
+  | .ok _ => none
+
+def exFsg : Buf := "# c\nFSG_BEGIN x\nN 3\nS 0\nF 2\nTRANS 0 1 0.5 go\nT 1 1 1.0\nT 1 2 .25\nT 0 1 1e-2 go\nFSG_\nT 9 9 9 x".toUTF8.data
+
+-- accepted: 3 states, one word, two word transitions, the null self-loop dropped, text after FSG_END ignored
+example : (match fsgRead exFsg with
+    | .ok f => f.nState == 3 && f.start == 0 && f.final == 2 && f.vocab == ["go".toUTF8.data.toList] &&
+               f.trans.length == 2 && f.nulls.map (fun t => (t.1, t.2.1)) == [(1, 2)]
+    | .error _ => false) = true := by decide +kernel
+
+-- refused inputs, one per class: nan (D18), state out of range after (int) truncation, missing header
+example : errOf (fsgRead "FSG_BEGIN x\nN 2\nS 0\nF 1\nT 0 1 nan go\n".toUTF8.data) = some .probMalformed := by decide +kernel
+example : errOf (fsgRead "FSG_BEGIN x\nN 2\nS 0\nF 1\nT 0 4294967298 0.5 go\n".toUTF8.data) = some .toInvalid := by decide +kernel
+example : (match fsgRead "FSG_BEGIN x\nN 2\nS 0\nF 1\nT 0 4294967297 0.5 go".toUTF8.data with
+    | .ok f => f.trans.map (fun t => (t.1, t.2.1)) == [(0, 1)] | .error _ => false) = true := by decide +kernel
+example : errOf (fsgRead "N 2\nS 0\n".toUTF8.data) = some .beginMissing := by decide +kernel
+-- keywords match by prefix (`strncmp(word, KW, ptr - word)`): the line `F 1` is an `FSG_BEGIN` line
+example : errOf (fsgRead "N 2\nS 0\nF 1\n".toUTF8.data) = some .nStatesMissing := by decide +kernel
+example : errOf (fsgRead "FSG_BEGIN x\nN 4294967295\nS 0\n".toUTF8.data) = some .allocFail := by decide +kernel
+
+-- the probability boundary: 1 + 2^-24 rounds to 1.0f (accepted), 1.0000002 does not; 1e-46 rounds to 0
+example : probAccept (atofLit "1.000000059604644775390625".toUTF8.data.toList) = true := by decide +kernel
+example : probAccept (atofLit "1.0000002".toUTF8.data.toList) = false := by decide +kernel
+example : probAccept (atofLit "1e-46".toUTF8.data.toList) = false := by decide +kernel
+example : probAccept (atofLit "0x1p-1".toUTF8.data.toList) = true := by decide +kernel
+example : probAccept (atofLit "-0".toUTF8.data.toList) = false ∧ probAccept (atofLit "inf".toUTF8.data.toList) = false := by decide +kernel
+
+-- the tokeniser: NUL is white space, the last word of an unterminated last line ends at the buffer end
+example : (lineWords (#[97, 0, 98, 32, 99] : Buf) ⟨0, 5, by decide, by decide⟩).map (fun w => (w.lo, w.hi)) = [(0, 1), (2, 3), (4, 5)] := by
+  decide +kernel
+
+def exPhones : List (List UInt8) := ["AH", "B", "F", "SIL", "UW"].map (·.toUTF8.data.toList)
+
+-- dictionary: comment, word without pronunciation, unknown phone, duplicate alternate (D5) — all ignored; `#` as last byte (D31)
+example : (match dictInit exPhones 3 (some "##c\nfoo F UW\nbar\nbaz XX\nfoo(2) F AH\nfoo(2) F UW\nfoo(3) B\n#".toUTF8.data) none with
+    | .ok d => d.words.map (fun e => (e.pron, e.basewid, e.alt)) ==
+        [([2, 4], 0, some 2), ([2, 0], 0, none), ([1], 0, some 1), ([3], 3, none), ([3], 4, none), ([3], 5, none)] && d.fillerStart == 3
+    | .error _ => false) = true := by decide +kernel
+example : errOf (dictInit exPhones 3 (some "foo F UW\n<sil> SIL\n".toUTF8.data) none) = some .silInMain := by decide +kernel
+
+-- JSON: braces optional, unquoted primitives, escapes; nested value text is passed on verbatim; typed refusal
+def exDefs : List CfgDef := [⟨"nfilt".toUTF8.data.toList, 2, some "40".toUTF8.data.toList⟩, ⟨"hmm".toUTF8.data.toList, 9, none⟩,
+  ⟨"lw".toUTF8.data.toList, 4, some "6.5".toUTF8.data.toList⟩, ⟨"dither".toUTF8.data.toList, 16, some "no".toUTF8.data.toList⟩]
+example : (match configParseJson exDefs "{\"nfilt\": 99999999999999999999, hmm: \"a\\tb\", \"dither\": yes}".toUTF8.data.toList with
+    | .ok c => c.map (·.2) == [.int 9223372036854775807, .str (some [97, 9, 98]), .flt (.fin false 65 true (-1)), .bool true]
+    | .error _ => false) = true := by decide +kernel
+example : errOf (configParseJson exDefs "{\"nfilt\": x}".toUTF8.data.toList) = some .badParam := by decide +kernel
+example : errOf (configParseJson exDefs "{\"hmm\": \"a}".toUTF8.data.toList) = some .part := by decide +kernel
+example : errOf (configParseJson exDefs "{\"hmm\": \"a\"]".toUTF8.data.toList) = some .inval := by decide +kernel
 
 end SSVerif.TextIn
